@@ -183,6 +183,7 @@ fn insert_tval<K: Fam>(e: &mut Enr<K>, key: &[u8], v: &TVal, k: &K) -> Result<Op
             e.insert(key, &l, k)
         }
         TVal::Item(i) => e.insert(key, &ItemEnc(rlp::encode(i)), k),
+        TVal::Raw(b) => e.insert(key, &ItemEnc(b.clone()), k),
     }
 }
 
@@ -289,6 +290,7 @@ fn b_tval<K: Fam>(b: &mut enr::Builder<K>, key: &[u8], v: &TVal) {
             b.add_value(key, &l)
         }
         TVal::Item(i) => b.add_value(key, &ItemEnc(rlp::encode(i))),
+        TVal::Raw(x) => b.add_value(key, &ItemEnc(x.clone())),
     };
 }
 
